@@ -152,7 +152,7 @@ type rpSigner struct {
 	m      int
 	verify []byte         // the RAW verification script put on the wire
 	addrA  common.Address // what the validator computes (payer)
-	addrB  common.Address // what GetSignatureAddresses derives from the raw script
+	addrB  common.Address // hash of the raw script (informational; the probe asks the real GetSignatureAddresses)
 	err    string
 }
 
@@ -408,6 +408,16 @@ func TestVerifReplicaA(t *testing.T) {
 			if tx == nil {
 				pr["accepted"], pr["err"] = false, e
 			} else {
+				// what a node that only DECODED the transaction derives (the real GetSignatureAddresses, on a fresh copy)
+				if tx2, err := types.TransactionFromRawBytes(tx.ToArray()); err == nil {
+					lazy := tx2.GetSignatureAddresses()
+					pr["same"] = len(lazy) == 1 && lazy[0] == s.addrA
+					if len(lazy) == 1 {
+						pr["addrB"] = lazy[0].ToHexString()
+					}
+				} else {
+					pr["same"] = false
+				}
 				code := VerifyTransaction(tx)
 				pr["accepted"] = code == ontErrors.ErrNoError
 				pr["verdict"] = code.Error()
